@@ -161,11 +161,24 @@ def gen_case(rng, max_m=1000, small=False, weaver=False, large=False):
         perm = [int(v) for v in rng.permutation(K)]
         if rng.integers(0, 2) and K + 1 <= m:
             perm.append(int(rng.integers(0, K)))          # one fixed point listed twice
+    alpha_arg = None
+    if rng.integers(0, 6) == 0:
+        # the exponent taken from a float32 / float16 parameter grid: a NumPy scalar narrower than the data
+        at = np.float32 if rng.integers(0, 3) else np.float16
+        alpha_arg = at(alpha)
+        alpha = float(alpha_arg)
+    idx_dtype = None
+    if mode == "indices" and rng.integers(0, 4) == 0:
+        # fixed-point indices held in a compact integer array (the result of np.flatnonzero(...).astype(...)): every index
+        # fits the type with room to spare, the LENGTH of the series need not
+        fits = [t for t in (np.uint8, np.int8, np.int16, np.uint16, np.int32, np.uint32, np.uint64) if max(idx) < np.iinfo(t).max]
+        if fits:
+            idx_dtype = np.dtype(fits[int(rng.integers(0, len(fits)))]).name
     both = None
     if mode == "indices" and rng.integers(0, 4) == 0:
         other = sorted(set(int(v) for v in rng.choice(np.arange(m), size=min(m, max(2, K)), replace=False)))
         both = other if other != sorted(idx) else None
-    case = {"x": x, "y": y, "x_ref": x_ref, "y_ref": y_ref, "idx": idx, "mode": mode, "both_given": both, "strategy": strategy, "perm": perm,
+    case = {"x": x, "y": y, "x_ref": x_ref, "y_ref": y_ref, "idx": idx, "mode": mode, "both_given": both, "alpha_arg": alpha_arg, "idx_dtype": idx_dtype, "strategy": strategy, "perm": perm,
             "on_grid": on_grid, "extras": extras, "alpha": alpha,
             "target_rule": RULES[int(rng.integers(0, 2))], "ref_rule": RULES[int(rng.integers(0, 2))],
             "xcls": xc, "ycls": yc, "burst": burst, "int32": int32, "m": m, "K": K, "weaver": bool(weaver),
@@ -176,7 +189,8 @@ def gen_case(rng, max_m=1000, small=False, weaver=False, large=False):
 def call_args(case, containers=None):
     """keyword arguments for integral_matching_reference_stretch"""
     kw = {"target_function_integral_method": case["target_rule"],
-          "reference_function_integral_method": case["ref_rule"], "alpha": case["alpha"]}
+          "reference_function_integral_method": case["ref_rule"],
+          "alpha": case["alpha"] if case.get("alpha_arg") is None else case["alpha_arg"]}
     if case.get("omit_defaults"):
         # documented defaults: trapezoid target, rectangle reference, alpha 1.0, strategy 'closest'
         if kw["target_function_integral_method"] == "trapezoid":
@@ -192,6 +206,8 @@ def call_args(case, containers=None):
         kw["fixed_points_in_x"] = [float(case["x"][i]) for i in _order(case)]
     else:
         kw["fixed_points_indices_in_x"] = list(_order(case))
+        if case.get("idx_dtype"):
+            kw["fixed_points_indices_in_x"] = np.array(kw["fixed_points_indices_in_x"], dtype=case["idx_dtype"])
         if case.get("both_given"):
             # documented: when indices are set, the fixed points are "set according to" them - positions given next
             # to them (here: other samples of x) must not change the outcome
@@ -376,7 +392,7 @@ def judge_c03(ctx, cid, case, res, fi, ri):
 
 def brief(case):
     d = {k: case[k] for k in ("mode", "strategy", "on_grid", "extras", "alpha", "target_rule", "ref_rule", "xcls",
-                              "ycls", "burst", "int32", "m", "K", "idx", "weaver", "perm", "both_given") if k in case}
+                              "ycls", "burst", "int32", "m", "K", "idx", "weaver", "perm", "both_given", "idx_dtype") if k in case}
     if case["m"] <= 24:
         d.update({"x": case["x"], "y": case["y"], "x_ref": case["x_ref"], "y_ref": case["y_ref"]})
     return d
